@@ -245,6 +245,13 @@ class ISock:
                 self.chunk[me] = 0
                 S.emit('sndfail', p)
                 raise BrokenPipeError(32, 'Broken pipe')
+        if c == 1 and me != 0 and getattr(self, 'fail_user_body', None) is not None:
+            # fault injection: the n-th BODY send made by a thread other than the networking thread (i.e. inside a flush or a
+            # forced write) raises once -- its length prefix is already on the wire
+            self.user_bodies = getattr(self, 'user_bodies', 0) + 1
+            if self.user_bodies - 1 == self.fail_user_body:
+                S.emit('sndfail', p)
+                raise BrokenPipeError(32, 'Broken pipe')
         self.wire.append((me, p, c, bytes(data)))
         S.emit('snd', p, c)
         return len(data)
